@@ -16,8 +16,8 @@
 (* pointer to the log entry that holds its content (ptx, pk) plus the      *)
 (* index time tx at which it was inserted.                                 *)
 (*                                                                         *)
-(* Three switches select the transcription of indexSince: FALSE = the      *)
-(* design (what a correct indexer does), TRUE = the code as pinned.        *)
+(* The variable sw selects the transcription of indexSince: "none" = the   *)
+(* design (what a correct indexer does), the others = the code as pinned.  *)
 (***************************************************************************)
 EXTENDS Integers, Sequences, FiniteSets, TLC, Json
 
@@ -29,10 +29,11 @@ CONSTANTS Keys,        \* source keys (sequences of characters)
           MaxTx,       \* bound on the length of the log
           MaxEntries,  \* bound on the number of entries per tx
           Indexes,     \* sequence of [src, tgt, mapped, inj, srcIdx] (see MCIndex.tla)
-          MaxBulk,     \* IndexOptions.MaxBulkSize
-          AliasKeys,            \* TRUE: kv.K of an identity index is a slice of the per-position key buffer of idx.tx
-          BulkStartInInjective, \* TRUE: the injective branch uses txID (bulk start) where txID+i is meant
-          ReadonlyTombMd,       \* TRUE: AsDeleted(true) on the read-only metadata of the previous entry is lost
+          BulkChoices, \* values of IndexOptions.MaxBulkSize (one is chosen per behaviour)
+          Switches,    \* transcription variants of indexSince (one is chosen per behaviour): "none" = the design;
+                       \* "alias": kv.K of an identity index is a slice of the per-position key buffer of idx.tx;
+                       \* "bulkstart": the injective branch uses txID (bulk start) where txID+i is meant;
+                       \* "rotomb": AsDeleted(true) on the read-only metadata of the previous entry is lost
           Export,      \* TRUE: keep the history variable (behaviours for replay)
           EmitDepth,   \* print the history when it reaches this length (0 = never)
           NReads,      \* random queries per read step (export)
@@ -40,10 +41,16 @@ CONSTANTS Keys,        \* source keys (sequences of characters)
           ReadWeight   \* relative weight of read steps (export)
 
 VARIABLES log, ts, map,
+          mb,     \* MaxBulkSize of this behaviour
+          sw,     \* transcription variant of this behaviour
           run,    \* realisable schedule only: index x is initialised (its indexer goroutine exists)
           pend,   \* realisable schedule only: initialised indexes that still have to apply the last transaction
           hist    \* observation only
-vars == <<log, ts, map, run, pend, hist>>
+vars == <<log, ts, map, mb, sw, run, pend, hist>>
+MaxBulk == mb
+AliasKeys == sw = "alias"
+BulkStartInInjective == sw = "bulkstart"
+ReadonlyTombMd == sw = "rotomb"
 
 X == 1..Len(Indexes)
 Min(a, b) == IF a < b THEN a ELSE b
@@ -309,25 +316,26 @@ H(e) == hist' = IF Export THEN Append(hist, e) ELSE hist
 
 Init == /\ log = <<>> /\ ts = [x \in X |-> 0] /\ map = [x \in X |-> EmptyMap]
         /\ run = [x \in X |-> FALSE] /\ pend = <<>> /\ hist = <<>>
+        /\ mb \in BulkChoices /\ sw \in Switches /\ TLCSet(42, {})
 
 (* general actions: the indexer may apply any bulk of 1..MaxBulk committed transactions at any time *)
 CommitTx(tx) ==
   /\ Len(log) < MaxTx /\ pend = <<>>
-  /\ log' = Append(log, tx) /\ UNCHANGED <<ts, map, run, pend>>
+  /\ log' = Append(log, tx) /\ UNCHANGED <<ts, map, run, pend, mb, sw>>
   /\ H(Step("commit", 0, tx, <<>>, Len(log) + 1, <<>>))
 IndexBulk(x, k) ==
   /\ k \in 1..Min(MaxBulk, Len(log) - ts[x]) /\ SourceReady(x, ts[x] + 1, k, ts)
   /\ LET b == BulkApply(x, k, map, ts) IN
        /\ b.ok /\ map' = b.map /\ ts' = b.ts
        /\ H(Step("bulk", x, NoTx, <<k>>, b.ts[x], <<>>))
-  /\ UNCHANGED <<log, run, pend>>
+  /\ UNCHANGED <<log, run, pend, mb, sw>>
 \* flush, compaction and restart of an index do not change what it holds
-Maint(op, x) == /\ Export /\ pend = <<>> /\ UNCHANGED <<log, ts, map, run, pend>> /\ H(Step(op, x, NoTx, <<>>, 0, <<>>))
+Maint(op, x) == /\ Export /\ pend = <<>> /\ UNCHANGED <<log, ts, map, run, pend, mb, sw>> /\ H(Step(op, x, NoTx, <<>>, 0, <<>>))
 \* WaitForIndexingUpto(n) returns once ts[x] >= n: reads after it see index time ts[x] >= n (see IndexAgrees)
 WaitIndexed(x, n) == ts[x] >= n
 
 NextMC == \/ \E tx \in AllTxs : CommitTx(tx)
-          \/ \E x \in X, k \in 1..MaxBulk : IndexBulk(x, k)
+          \/ \E x \in X, k \in 1..mb : IndexBulk(x, k)
           \/ \E x \in X, op \in {"flush", "compact", "reopen"} : Maint(op, x)
 SpecMC == Init /\ [][NextMC]_vars
 
@@ -344,26 +352,26 @@ CatchUp(x, mp, tsv, bulks) ==
 Running == SelectSeq([i \in 1..Len(Indexes) |-> i], LAMBDA x : run[x])
 CommitRz(tx) ==
   /\ Len(log) < MaxTx /\ pend = <<>>
-  /\ log' = Append(log, tx) /\ pend' = Running /\ UNCHANGED <<ts, map, run>>
+  /\ log' = Append(log, tx) /\ pend' = Running /\ UNCHANGED <<ts, map, run, mb, sw>>
   /\ H(Step("commit", 0, tx, <<>>, Len(log) + 1, <<>>))
 LiveRz ==
   /\ pend # <<>>
   /\ LET x == Head(pend) b == BulkApply(x, 1, map, ts) IN
        /\ b.ok /\ map' = b.map /\ ts' = b.ts /\ H(Step("live", x, NoTx, <<1>>, b.ts[x], <<>>))
-  /\ pend' = Tail(pend) /\ UNCHANGED <<log, run>>
+  /\ pend' = Tail(pend) /\ UNCHANGED <<log, run, mb, sw>>
 StartRz(x) ==
   /\ ~run[x] /\ pend = <<>> /\ (Indexes[x].inj => run[Indexes[x].srcIdx])
   /\ LET c == CatchUp(x, map, ts, <<>>) IN
        /\ c.ok /\ map' = c.map /\ ts' = c.ts /\ H(Step("start", x, NoTx, c.bulks, c.ts[x], <<>>))
-  /\ run' = [run EXCEPT ![x] = TRUE] /\ UNCHANGED <<log, pend>>
+  /\ run' = [run EXCEPT ![x] = TRUE] /\ UNCHANGED <<log, pend, mb, sw>>
 StopRz(x) ==
   /\ run[x] /\ pend = <<>> /\ \A y \in X : (Indexes[y].inj /\ Indexes[y].srcIdx = x) => ~run[y]
-  /\ run' = [run EXCEPT ![x] = FALSE] /\ UNCHANGED <<log, ts, map, pend>>
+  /\ run' = [run EXCEPT ![x] = FALSE] /\ UNCHANGED <<log, ts, map, pend, mb, sw>>
   /\ H(Step("stop", x, NoTx, <<>>, 0, <<>>))
 MaintRz(op, x) == (IF x = 0 THEN TRUE ELSE run[x]) /\ Maint(op, x)
 \* reads of an initialised index at its index time (= Len(log) here): expected results from the REFERENCE
 ReadRz(x) ==
-  /\ run[x] /\ pend = <<>> /\ UNCHANGED <<log, ts, map, run, pend>>
+  /\ run[x] /\ pend = <<>> /\ UNCHANGED <<log, ts, map, run, pend, mb, sw>>
   /\ \E qs \in {[i \in 1..NReads |-> RandQ(x, ts[x])]} :
        LET M == RefMap(x, ts[x])
            all == <<[Q0 EXCEPT !.op = "dump"]>> \o SelectSeq(qs, LAMBDA q : Defined(M, q))
@@ -395,13 +403,16 @@ MapAgrees == \A x \in X : map[x] = RefMap(x, ts[x])
 RefMonotone == Quiet => \A x \in X : \A n \in 0..Len(log) : Restrict(RefMap(x, Len(log)), n) = RefMap(x, n)
 \* for the runs with a transcription switch on: the counterexample is printed as a replayable behaviour together
 \* with what the REFERENCE says every initialised index holds at that point
+\* for the runs with transcription variants: the first (shortest) counterexample of every variant is printed as a
+\* replayable behaviour together with what the REFERENCE says every initialised index holds at that point; the
+\* search goes on (a TLC counterexample is never a verdict: the check replays them on the real code)
 MapAgreesX ==
-  IF MapAgrees THEN TRUE
-  ELSE /\ PrintT(<<"JSON:", ToJson([steps |-> hist, indexes |-> Indexes, maxBulk |-> MaxBulk, run |-> run, ts |-> ts,
+  IF MapAgrees \/ sw \in TLCGet(42) THEN TRUE
+  ELSE /\ TLCSet(42, TLCGet(42) \cup {sw})
+       /\ PrintT(<<"JSON:", ToJson([steps |-> hist, indexes |-> Indexes, maxBulk |-> mb, sw |-> sw, run |-> run, ts |-> ts,
                                     dumps |-> [x \in X |-> RDump(RefMap(x, ts[x]))]])>>)
-       /\ FALSE
-ReadsAgree == \A x \in X : \A q \in QueriesMC(x, ts[x]) :
-                Eval(map[x], q) = Eval(RefMap(x, ts[x]), q)
+ReadsAgree == \A x \in X : LET R == RefMap(x, ts[x]) IN
+                \A q \in QueriesMC(x, ts[x]) : Eval(map[x], q) = Eval(R, q)
 IndexAgrees == MapAgrees /\ ReadsAgree
 \* the reference itself is what the property means for an injective mapped index: a source key is findable under
 \* exactly the target key of its current version, every other target key it ever had is a tombstone
@@ -419,5 +430,5 @@ RefHistoryOrdered ==
     \A k \in DOMAIN M : \A j \in 1..(Len(M[k]) - 1) : M[k][j].tx < M[k][j + 1].tx
 
 Emit == (EmitDepth > 0 /\ Len(hist) = EmitDepth) => PrintT(<<"JSON:", ToJson([steps |-> hist, indexes |-> Indexes, maxBulk |-> MaxBulk])>>)
-View == <<log, ts, map, run, pend>>
+View == <<log, ts, map, run, pend, mb, sw>>
 =============================================================================
